@@ -797,6 +797,45 @@ func (a *Analysis) accessorResultReadOnly(acc *ssa.Function) bool {
 	return true
 }
 
+// closureOutlivesMaker: the function literal fn is kept beyond the call that made it – returned, stored, put in a
+// table, converted to an interface – rather than only handed down as an argument and run while its maker is still
+// running (`c.locked(&c.mu, func() { … })`).
+func closureOutlivesMaker(fn *ssa.Function) bool {
+	par := fn.Parent()
+	if par == nil {
+		return false
+	}
+	for _, b := range par.Blocks {
+		for _, in := range b.Instrs {
+			mc, ok := in.(*ssa.MakeClosure)
+			if !ok || mc.Fn != ssa.Value(fn) {
+				continue
+			}
+			refs := mc.Referrers()
+			if refs == nil {
+				return true
+			}
+			for _, r := range *refs {
+				switch u := r.(type) {
+				case *ssa.DebugRef:
+				case *ssa.Call:
+					if u.Call.Value == ssa.Value(mc) {
+						continue // called on the spot
+					}
+					// an argument of a call: runs (if at all) under that call – unless the callee is a registrar-like
+					// function that keeps it; a function value kept by a callee shows up as that callee's own write
+					continue
+				case *ssa.Defer:
+					continue
+				default:
+					return true
+				}
+			}
+		}
+	}
+	return false
+}
+
 type capturedWrite struct {
 	in   ssa.Instruction
 	what string
@@ -1372,7 +1411,7 @@ func (a *Analysis) CheckC20(rep *Report, tier string) {
 		for maker != nil && maker.Parent() != nil {
 			maker = maker.Parent()
 		}
-		if fn.Parent() != nil && len(fn.FreeVars) > 0 && !reach[fn.Parent()] && maker != nil && !reach[maker] && startupOnly(maker) {
+		if fn.Parent() != nil && len(fn.FreeVars) > 0 && !reach[fn.Parent()] && maker != nil && !reach[maker] && startupOnly(maker) && closureOutlivesMaker(fn) {
 			for _, w := range capturedWrites(fn) {
 				rep.Ob("V6-no-write-to-captured-state", name+":"+w.what, false, a.P.Pos(w.in.Pos()), fmt.Sprintf("%s: the function literal was made by %s, outside any codec call, so the variable is shared by every call that runs it", w.what, FuncName(fn.Parent())))
 			}
